@@ -7,7 +7,8 @@ For /tmp/seed-<PROP>-out/{patchN.diff,demoN.sh,README.md}:
   2. `cargo build --offline -p rsass-cli` must succeed;
   3. demoN.sh <patched tree> must exit non-zero (property broken with the change);
   4. demoN.sh <clean tree> must exit 0 (property holds without it);
-  5. the existing test suite must pass completely on the patched tree;
+  5. the existing test suite must pass completely on the patched tree (with --no-suite this step is
+     deferred: the seed is filed with suite "pending" and `seedconfirm.py --suite [ids]` runs it later);
   6. the worktree and its build output are removed.
 Only a change that passes 1-5 is kept.
 
@@ -42,6 +43,46 @@ def _ensure_clean(h, CLEAN):
     r = sh(["cargo", "build", "--offline", "-p", "rsass-cli"], cwd=CLEAN)
     if r.returncode != 0:
         raise SystemExit("clean build failed: " + r.stdout[-500:])
+
+
+NO_SUITE = False
+
+
+def run_suite(wt):
+    r = sh(["cargo", "nextest", "run", "--workspace", "--no-fail-fast", "--test-threads", "8", "--offline"], cwd=wt)
+    m = re.search(r"Summary \[[^\]]*\] (\d+) tests run: (\d+) passed.*", r.stdout)
+    ok = bool(m) and m.group(1) == m.group(2) and int(m.group(1)) >= 6796 and r.returncode == 0
+    return ok, (m.group(0) if m else r.stdout[-300:])
+
+
+def suite_phase(ids):
+    """phase 2: run the existing suite on every filed seed whose suite result is pending"""
+    sdir = os.path.join(HERE, "seeded")
+    for sid in ids or sorted(os.listdir(sdir)):
+        mp = os.path.join(sdir, sid, "meta.json")
+        if not os.path.exists(mp):
+            continue
+        meta = json.load(open(mp))
+        if not str(meta["confirmed"].get("existing_suite", "")).startswith("pending"):
+            continue
+        wt = f"/tmp/sc-{sid}"
+        sh(["git", "-C", "/repo", "worktree", "remove", "--force", wt])
+        shutil.rmtree(wt, ignore_errors=True)
+        sh(["git", "-C", "/repo", "worktree", "add", "--detach", wt, meta["base_commit"]])
+        shutil.copy("/repo/Cargo.lock", wt)
+        try:
+            r = sh(["git", "-C", wt, "apply", os.path.join(sdir, sid, "patch.diff")])
+            if r.returncode != 0:
+                print(sid, "patch does not apply to its base", flush=True)
+                continue
+            ok, summary = run_suite(wt)
+            meta["confirmed"]["existing_suite"] = summary
+            meta["confirmed"]["existing_suite_passes"] = ok
+            json.dump(meta, open(mp, "w"), indent=1)
+            print(sid, "SUITE OK" if ok else "SUITE FAILS -> remove this seed", summary, flush=True)
+        finally:
+            sh(["git", "-C", "/repo", "worktree", "remove", "--force", wt])
+            shutil.rmtree(wt, ignore_errors=True)
 
 
 def confirm(prop, n, outdir):
@@ -81,22 +122,22 @@ def confirm(prop, n, outdir):
             res["rejected"] = "does not compile: " + r.stdout[-300:]
             return res
         os.chmod(demo, 0o755)
-        rp = sh(["bash", demo, wt], cwd=outdir, timeout=1800)
-        rc = sh(["bash", demo, clean], cwd=outdir, timeout=1800)
+        rp = sh(["bash", demo, wt], cwd=outdir, timeout=5400)
+        rc = sh(["bash", demo, clean], cwd=outdir, timeout=5400)
         res["demo_patched_rc"] = rp.returncode
         res["demo_clean_rc"] = rc.returncode
         res["demo_patched_tail"] = rp.stdout[-400:]
         if rp.returncode == 0 or rc.returncode != 0:
             res["rejected"] = f"demo does not discriminate (patched rc={rp.returncode}, clean rc={rc.returncode})"
             return res
-        t = time.time()
-        r = sh(["cargo", "nextest", "run", "--workspace", "--no-fail-fast", "--test-threads", "8", "--offline"], cwd=wt)
-        m = re.search(r"Summary \[[^\]]*\] (\d+) tests run: (\d+) passed.*", r.stdout)
-        res["suite"] = m.group(0) if m else r.stdout[-300:]
-        res["suite_s"] = round(time.time() - t)
-        if not m or m.group(1) != m.group(2) or int(m.group(1)) < 6796 or r.returncode != 0:
-            res["rejected"] = "existing test suite does not pass with the change"
-            return res
+        if NO_SUITE:
+            res["suite"] = "pending (phase 2: tools/seedconfirm.py --suite)"
+        else:
+            ok, summary = run_suite(wt)
+            res["suite"] = summary
+            if not ok:
+                res["rejected"] = "existing test suite does not pass with the change"
+                return res
         # keep it
         d = os.path.join(HERE, "seeded", sid)
         os.makedirs(d, exist_ok=True)
@@ -126,11 +167,23 @@ def confirm(prop, n, outdir):
 
 
 def main():
+    global NO_SUITE
+    args = sys.argv[1:]
+    if args and args[0] == "--suite":
+        return suite_phase(args[1:])
+    if args and args[0] == "--no-suite":
+        NO_SUITE = True
+        args = args[1:]
     ensure_clean()
-    for prop in sys.argv[1:]:
+    for prop in args:
         outdir = f"/tmp/seed-{prop}-out"
         for n in (1, 2):
-            r = confirm(prop, n, outdir)
+            if os.path.exists(os.path.join(HERE, "seeded", f"{prop}-{n}", "meta.json")):
+                continue
+            try:
+                r = confirm(prop, n, outdir)
+            except subprocess.TimeoutExpired as e:
+                r = {"id": f"{prop}-{n}", "error": "timeout: " + str(e)[:200]}
             r.pop("demo_patched_tail", None); print(json.dumps(r), flush=True)
 
 
